@@ -23,8 +23,8 @@ META = {
     "bounds": {"quick": "kernels n1 x n2 = 2x3, d=1, batch () and (2,); natural params M=2, batch () and (2,); predictions n=2,m=1,d=1",
                "thorough": "kernels also d=2 (non-ARD), x2 is x1; natural params M<=3; predictions n=2,m=2"},
     "outside": ["LogNormalCDF.backward (an approximation of phi/Phi by construction; its accuracy is a transcendental claim)",
-                "CIQ _NgdInterpTerms.backward (iterative msMINRES forward, eigh)", "rounding"],
-    "assumptions": ["reals for floats", "symmetric part of matrix-valued gradients only (the antisymmetric part of d/d(eta2) is not observable)"],
+                "CIQ: the contour-integral whitening K^-1/2 itself (msMINRES / eigh); _NgdInterpTerms is checked with linear_cg replaced by its contract", "rounding"],
+    "assumptions": ["reals for floats", "linear_cg(A.matmul, rhs) returns A^-1 rhs (contract stub in _NgdInterpTerms.forward)", "symmetric part of matrix-valued gradients only (the antisymmetric part of d/d(eta2) is not observable)"],
 }
 TIMEOUT_S = {"quick": 500, "thorough": 2400}
 
@@ -194,6 +194,66 @@ def natural(S, M, batch, tril):
         _expectation_check(S, out, g1[b], g2sym, eta1, eta2, atoms, tag + ("tril-natural" if tril else "natural"))
 
 
+def ciq_ngd(S, M, n, batch):
+    """CIQ natural-gradient terms (_NgdInterpTerms): the hand-written backward delivers d/d(interp_term) and the gradients
+       w.r.t. the EXPECTATION parameters of (k^T m, k^T S k, KL(q(u)||N(0,I))). The forward's iterative linear_cg is replaced
+       by its contract (the exact solve with the precision); the KL value (which the forward does not compute) is its closed form."""
+    import gpytorch.variational.ciq_variational_strategy as ciq
+    from symten import gauss_inverse_solve, sym_log
+    bs = (batch,) if batch else ()
+    Rs, Rc = S.factor("r", M, bs, diag_lo=0.8, diag_hi=1.5, off_scale=0.4)
+    th1 = S.randn(*bs, M)
+    T1 = S.sym_tensor(th1, "t")
+    nat_mat = (-0.5 * Rc @ Rc.transpose(-1, -2)).contiguous()
+    S.put(nat_mat, (Rs @ np.swapaxes(Rs, -1, -2)) * Sym.const(-0.5))
+    it = S.randn(*bs, M, n, scale=0.6)
+    IT = S.sym_tensor(it, "k")
+    for t in (th1, nat_mat, it):
+        t.requires_grad_(True)
+    gm, GM = _upstream(S, bs + (n,), "gm")
+    gv, GV = _upstream(S, bs + (n,), "gv")
+    gk, GK = _upstream(S, bs if bs else (1,), "gk")
+    orig = ciq.linear_cg
+    def cg_contract(matmul, rhs, **kw):
+        return torch.linalg.solve(matmul.__self__, rhs)
+    ciq.linear_cg = cg_contract
+    try:
+        with S.mode():
+            mean, var, kl = ciq._NgdInterpTerms.apply(it, th1, nat_mat)
+            ((mean * gm).sum() + (var * gv).sum() + (kl * (gk if bs else gk[0])).sum()).backward()
+            mean_s, var_s = as_sym_arr(SH.get(mean)), as_sym_arr(SH.get(var))
+            g_it = as_sym_arr(SH.get(it.grad))
+            g1 = as_sym_arr(SH.get(th1.grad))
+            g2 = as_sym_arr(SH.get(nat_mat.grad))
+    finally:
+        ciq.linear_cg = orig
+    for b in (np.ndindex(*bs) if bs else [()]):
+        tag = ("b%s." % list(b)) if bs else ""
+        R = Rs[b]
+        prec = R @ R.T
+        Sig = gauss_inverse_solve(prec, eye(M))
+        m = (Sig @ T1[b].reshape(M, 1)).reshape(M)
+        logdetS = sum((sym_log(R[i, i]) for i in range(M)), Sym.const(0.0)) * Sym.const(-2.0)
+        klv = (np.sum(np.diagonal(Sig)) + np.sum(m * m) - logdetS - Sym.const(float(M))) * Sym.const(0.5)
+        gkb = GK[b] if bs else GK[0]
+        out = np.sum(mean_s[b] * GM[b]) + np.sum(var_s[b] * GV[b]) + klv * gkb
+        # (a) gradient w.r.t. the interpolation term: plain partial derivatives
+        for i in range(M):
+            for j in range(n):
+                a = "k" + "".join("_%d" % q for q in (b + (i, j)))
+                Df = Differ(CTX.atoms[a])
+                want = Df.Dsym(out)
+                if not S.replay:
+                    fd_validate(out, a, want)
+                S.prove_eq(np.array([g_it[b][i, j]], dtype=object), np.array([want], dtype=object), tag + "CIQ-NGD: d/d interp_term[%d,%d]" % (i, j))
+        # (b) the gradients delivered for (natural_vec, natural_mat) are those w.r.t. the expectation parameters
+        eta1 = m
+        eta2 = np.outer(m, m) + Sig
+        atoms = [a for a in CTX.atoms if (a.startswith("r_") or a.startswith("t_")) and (not bs or a.split("_")[1] == str(b[0]))]
+        G2 = g2[b]
+        _expectation_check(S, out, g1[b], (G2 + G2.T) * Sym.const(0.5), eta1, eta2, atoms, tag + "CIQ-NGD")
+
+
 def prediction_input_grad(S, kernel, n, m, detach):
     """gradient of posterior mean / variance w.r.t. the test inputs = symbolic derivative of the prediction shadow"""
     d = 1
@@ -242,6 +302,7 @@ def scenarios(tier, seed):
         add("natural", M=2, batch=2, tril=True)
         add("prediction_input_grad", kernel="rbf", n=2, m=1, detach=True)
         add("prediction_input_grad", kernel="rbf", n=2, m=1, detach=False)
+        add("ciq_ngd", M=2, n=2, batch=0)
     else:
         for spec in ("rbf", "matern05", "matern15", "matern25"):
             for (n1, n2, d, batch, same) in [(2, 3, 1, 0, False), (3, 2, 2, 0, False), (2, 2, 1, 2, False), (3, 3, 1, 0, True), (2, 2, 2, 0, True)]:
@@ -252,6 +313,8 @@ def scenarios(tier, seed):
                     continue
                 add("natural", M=M, batch=batch, tril=False)
                 add("natural", M=M, batch=batch, tril=True)
+        for (M, n, batch) in [(1, 1, 0), (2, 1, 0), (2, 2, 0), (2, 2, 2), (3, 1, 0)]:
+            add("ciq_ngd", M=M, n=n, batch=batch)
         for kern in ("rbf",):  # rq: pow atoms with a symbolic exponent make the derivative terms explode (not claimed)
             for detach in (True, False):
                 add("prediction_input_grad", kernel=kern, n=2, m=1, detach=detach)
